@@ -41,8 +41,21 @@ class Program:
 
     def log_reg(self, s):
         if s is None:
-            return {"none": True, "ids": [], "letters": [], "shape": [], "total": 0}
-        return {"none": False, "ids": self.ids_of(s), "letters": list(s.letters), "shape": [int(x) for x in s.shape], "total": int(s.total_size)}
+            return {"none": True, "ids": [], "letters": [], "shape": [], "total": 0, "arrshape": [-1]}
+        return {"none": False, "ids": self.ids_of(s), "letters": list(s.letters), "shape": [int(x) for x in s.shape], "total": int(s.total_size),
+                "arrshape": self.arrshape(s)}
+
+    def arrshape(self, s):
+        """the shape of the values of an array built from the set right now (C13)"""
+        n = 1
+        for d in s:
+            n *= len(d.items)
+        if n > 5000:
+            return [-1]
+        try:
+            return [int(x) for x in FlodymArray(dims=s).values.shape]
+        except Exception:
+            return [-2]
 
     def rand_set(self):
         letters = {}
